@@ -19,6 +19,7 @@ import (
 	"fmt"
 	"os"
 	"os/exec"
+	"runtime"
 	"sort"
 	"strconv"
 	"strings"
@@ -416,7 +417,10 @@ func runIter(f []string) string {
 			go func(t int) {
 				defer wg.Done()
 				atomic.AddInt32(&ready, 1)
-				for atomic.LoadInt32(&ready) < int32(g) {
+				for spins := 0; atomic.LoadInt32(&ready) < int32(g); spins++ {
+					if spins%2000 == 1999 {
+						runtime.Gosched() // never starve the goroutines that are not yet running
+					}
 				}
 				for j := 0; j < 3; j++ {
 					vals[t] = append(vals[t], itr.Next(".s[next]"))
